@@ -16,8 +16,12 @@ HARNESS = {
                     extra_san=['-fno-sanitize=alignment']),
     'wav': dict(cpp=['h/h_wav.cpp'], c=['adp/adp_wav.c'],
                 repo=['librfn/wavheader.c', 'librfn/pack.c', 'librfn/string.c', 'librfn/util.c', 'librfn/posix/time_posix.c']),
+    'fibre': dict(cpp=['h/h_fibre.cpp'], c=['adp/adp_fibre.c'],
+                  repo=['librfn/fibre.c', 'librfn/list.c', 'librfn/messageq.c', 'librfn/util.c', 'librfn/posix/time_posix.c']),
     'list': dict(cpp=['h/h_list.cpp'], c=['adp/adp_list.c'], repo=['librfn/list.c']),
 }
+
+FIB_RULE = 'case = choice tape decoded into a history: 1-6 fibres (each one real protothread with 4 numbered segments), a time base (0, just below 2^32, just below 2^31, or random), <=40 external ops Run/RunAtomic/Kill/Next(dt); what a dispatched fibre does (0-3 inner calls of fibre_run / fibre_run_atomic / fibre_kill on any fibre, fibre_timeout(now+delta), then return yielded/waiting/exited/failed) is drawn from the tape at the moment of the dispatch. An abstract scheduler (FIFO run queue, arrival-ordered atomic requests with capacity 8, timer list ordered by 64-bit unwrapped due time then registration) runs in lock-step; the first divergence ends the case and is a failure if its kind belongs to this property. '
 
 PROPS = {
     'C10': dict(
@@ -218,6 +222,52 @@ PROPS = {
         require={'states checked against 64-bit reference': (1 << 31) - 2},
         assumptions=['64-bit unsigned multiplication and remainder in the harness are the reference'],
         level_text='exhaustive: all 2^31-2 valid states on every run (quick and thorough)',
+    ),
+    'C01': dict(
+        title='Fibres are dispatched exactly when runnable, once per reason, in FIFO order',
+        rule=FIB_RULE + 'Asserted here: which fibre (or none) each call dispatches, fibre_self inside and after, the segment it resumes at, '
+             'every fibre_kill and fibre_run_atomic result. Non-trivial: >=2 fibres and a coalesced reason, a kill that returned true, >=2 '
+             'atomic requests at one drain, a timer cancelled by run/kill, or a restart after exit. Distinct = distinct tapes. enum stage = '
+             'every history of the given length over 3 fibres with <=1 inner call per dispatch.',
+        stages=[
+            dict(h='fibre', mode='rc', what='random histories', params=dict(oracle=1),
+                 quick=dict(cases=200000, len=500), thorough=dict(cases=5000000, len=500)),
+            dict(h='fibre', mode='enum', what='all short histories, 3 fibres', params=dict(oracle=1, fibres=3),
+                 common=dict(maxruns=1500000, split=4), quick=dict(params=dict(ops=4)), thorough=dict(params=dict(ops=6), maxruns=30000000)),
+        ],
+        require={'coalesced-reason': 1000, 'kill-returned-true': 1000, 'two-or-more-atomic-requests-at-one-drain': 1000,
+                 'timer-cancelled-by-run-or-kill': 1000, 'restart-after-exit': 1000},
+        assumptions=['scope of the property is built into the generator: one unsatisfied fibre_timeout per dispatch, time within the 2^31 window; the 9th undrained fibre_run_atomic is modelled (must return false)',
+                     'fibre_kill of the fibre that yielded in the previous pass does not stop its re-queue at the next pass (the statement places that re-queue at the next pass)'],
+    ),
+    'C02': dict(
+        title='Fibre timeouts never fire early, fire in due order, and survive 32-bit time wrap',
+        rule=FIB_RULE + 'Timer-heavy profile (deltas mostly 0..11 so that due times collide and expire together, occasionally up to 2^31-1). '
+             'Asserted here: every fibre_timeout result; no dispatch of a fibre the model says is still asleep, wake-up in the first pass '
+             'at/after the due time, order among same-pass expiries, no second dispatch from a cancelled timer (dispatch divergences that '
+             'involve a fibre with timer activity since it last ran); and the metamorphic form of wrap-safety: the same tape replayed at '
+             'time base 0 must give the same observation trace. Non-trivial: >=2 sleepers expiring in one pass, a cancellation, or a pass '
+             'window straddling 0xffffffff->0 or 0x7fffffff->0x80000000 with timers in use. Distinct = distinct tapes.',
+        stages=[
+            dict(h='fibre', mode='rc', what='timer-heavy random histories', params=dict(oracle=2, profile=2),
+                 quick=dict(cases=200000, len=500), thorough=dict(cases=5000000, len=500)),
+        ],
+        require={'two-or-more-sleepers-expire-in-one-pass': 1000, 'timer-cancelled-by-run-or-kill': 1000,
+                 'window-straddles-a-wrap-point': 1000, 'metamorphic-base-0-replay': 1000},
+        assumptions=['all pending due times lie within 2^31 ticks after the current time (by construction)'],
+    ),
+    'C03': dict(
+        title='fibre_scheduler_next returns a wake-up time that never oversleeps',
+        rule=FIB_RULE + 'Asserted here (sequential half): the value returned by every fibre_scheduler_next(t) equals t if the dispatched fibre '
+             'yielded or anything is runnable on return (run queue or an undrained accepted atomic request, including those issued by the '
+             'fibre body), else the earliest pending due time (cyclically after t), else t+FIBRE_UNBOUNDED_SLEEP. Non-trivial: a call that '
+             'returns with an undrained request, or with only timers pending, or after a yield. Distinct = distinct tapes.',
+        stages=[
+            dict(h='fibre', mode='rc', what='random histories', params=dict(oracle=3),
+                 quick=dict(cases=200000, len=500), thorough=dict(cases=5000000, len=500)),
+        ],
+        require={'returns-with-undrained-atomic-request': 1000, 'returns-with-only-timers-pending': 1000, 'returns-after-a-yield': 1000},
+        assumptions=['interrupt-timing half (requests arriving inside fibre_scheduler_next) is the isched stage'],
     ),
     'C09': dict(
         title='Linked list behaves as a sequence under every order of operations',
